@@ -138,20 +138,16 @@ class Resolver:
         return a
 
     def _compatible(self, h: list[str], a: list[str]) -> bool:
-        for x in h:
-            for y in a:
-                if (
-                    x == y
-                    or self.repo.is_subclass(x, y)
-                    or self.repo.is_subclass(y, x)
-                    or x.split(".")[-1] == y.split(".")[-1]
-                ):
-                    return True
-        # the fallback resolver is deliberately partial: only package
-        # classes are compared
-        return not any(y.startswith(self.repo.package) for y in a) or not any(
-            x.startswith(self.repo.package) for x in h
-        )
+        """The fallback resolver is deliberately partial: it only *disagrees*
+        when both sides name exactly one package class each and the two are
+        unrelated.  Unions (the checker may have narrowed them), type
+        variables and aliases are not compared."""
+        hc = [x for x in dict.fromkeys(h) if x in self.repo.classes]
+        ac = [y for y in dict.fromkeys(a) if y in self.repo.classes]
+        if len(set(a)) != 1 or len(hc) != 1 or len(ac) != 1:
+            return True
+        x, y = hc[0], ac[0]
+        return x == y or self.repo.is_subclass(x, y) or self.repo.is_subclass(y, x)
 
     def _is_self(self, fi: FuncInfo, node: ast.AST) -> bool:
         if not isinstance(node, ast.Name) or fi.cls is None:
